@@ -76,3 +76,27 @@ Section CmacGo.
   Definition cm_size (d : cmst) : N := lenN (cm_digest d).
   Definition cm_blocksize (d : cmst) : N := 16.
 End CmacGo.
+
+(* a history of calls on one hash object *)
+Inductive cmac_op : Type :=
+| OpWrite (data : list N)
+| OpSum (inp : list N)
+| OpReset.
+
+Fixpoint cm_run (E : list N -> list N) (d : cmst) (ops : list cmac_op) : cmst :=
+  match ops with
+  | [] => d
+  | OpWrite data :: r => cm_run E (cm_write E d data) r
+  | OpSum inp :: r => cm_run E (snd (cm_sum E d inp)) r
+  | OpReset :: r => cm_run E (cm_reset d) r
+  end.
+
+(* the bytes written since the last Reset *)
+Fixpoint written_acc (acc : list N) (ops : list cmac_op) : list N :=
+  match ops with
+  | [] => acc
+  | OpWrite data :: r => written_acc (acc ++ data) r
+  | OpSum _ :: r => written_acc acc r
+  | OpReset :: r => written_acc [] r
+  end.
+Definition written (ops : list cmac_op) : list N := written_acc [] ops.
